@@ -4,7 +4,7 @@
    that counts only the nesting depth of followed references. *)
 From Coq Require Import List String Bool Arith.
 From Spec Require Import Base.Json Base.Url Codec.Types Codec.Gen_Tables Codec.Codec Codec.CodecFacts Expand.Expand Expand.ExpandFacts
-  Expand.ExpandSim Expand.ExpandSimCheck Expand.ExpandCycle Expand.ExpandElem Expand.ExpandSpecTerm Expand.ExpandTermG Expand.ExpandComplete Expand.ExpandExample.
+  Expand.ExpandSim Expand.ExpandSimCheck Expand.ExpandCycle Expand.ExpandElem Expand.ExpandSpecTerm Expand.ExpandTermG Expand.ExpandComplete Expand.ExpandChain Expand.ExpandSpecSim Expand.ExpandExample.
 Import ListNotations.
 Local Open Scope string_scope.
 
@@ -104,3 +104,49 @@ Theorem C04_composition_consumes_no_fuel : forall E docs cwd OP ctx_base live fo
   expand_spec_with E docs cwd OP ctx_base live follow fuel root_url root s <> OOF.
 Proof. exact expand_spec_with_not_oof. Qed.
 Print Assumptions C04_composition_consumes_no_fuel.
+
+(* ---------- ExpandSpec as a whole terminates with a result (Expand/ExpandChain.v, ExpandSpecSim.v) ---------- *)
+(* the chains of a well-formed, resolvable graph of elements return: fuel above the rank of the first hop is enough *)
+Theorem C04_chains_return : forall E docs cwd OP live rid,
+  (forall lu ld, live = Some (lu, ld) -> doc_at docs cwd lu = Some ld) ->
+  forall GE : string -> string -> list (string * json) -> Prop,
+  (forall kind b m, GE kind b m -> get_str "$ref" m <> "" -> remove_key "$ref" m = []) ->
+  (forall kind b m b1 tm, GE kind b m -> get_str "$ref" m <> "" ->
+     sem_target_k E docs cwd kind (get_str "$ref" m) b = Some (b1, JObj tm) -> GE kind b1 tm /\ merge_over tm [] = tm) ->
+  (forall kind b m nref, GE kind b m -> get_str "$ref" m <> "" -> nuri (get_str "$ref" m) b = POk nref ->
+     keeps_resolver (get_str "$ref" m) b nref -> nbase cwd (strip_frag nref) = nbase cwd (strip_frag b)) ->
+  forall MD : string -> Prop, (forall x, chain_ref GE x -> ~ MD x) ->
+  forall rk : string -> nat,
+  (forall kind b m nref b1 tm nref1, GE kind b m -> get_str "$ref" m <> "" ->
+     nuri (get_str "$ref" m) b = POk nref -> sem_target_k E docs cwd kind (get_str "$ref" m) b = Some (b1, JObj tm) ->
+     get_str "$ref" tm <> "" -> nuri (get_str "$ref" tm) b1 = POk nref1 -> rk nref1 < rk nref) ->
+  (forall kind b m, GE kind b m -> get_str "$ref" m <> "" ->
+     exists nref b1 tm br, nuri (get_str "$ref" m) b = POk nref /\
+       sem_target_k E docs cwd kind (get_str "$ref" m) b = Some (b1, JObj tm) /\ new_ref (s2l b) = POk br) ->
+  forall kind fuel s parents rroot base m,
+  GE kind base m -> Inv docs rid s -> Coh cwd rroot base -> MemoIn MD s -> above rk parents base m ->
+  (forall nref, get_str "$ref" m <> "" -> nuri (get_str "$ref" m) base = POk nref -> rk nref < fuel) ->
+  exists s' m1 rr1 b1, deref E docs cwd OP live fuel s parents rroot base kind m = Done (s', m1, rr1, b1).
+Proof. exact deref_succeeds. Qed.
+Print Assumptions C04_chains_return.
+
+(* ExpandSpec returns a document on every checked, resolvable graph, from every consistent state (the statement and the
+   example are those of C08_expand_spec_no_spurious_error; here: neither OutOfFuel nor an unsupported step) *)
+Theorem C04_expand_spec_returns : forall E docs cwd OP ctx_base rid nodes enodes bad0 ranks live,
+  (forall lu ld, live = Some (lu, ld) -> doc_at docs cwd lu = Some ld) ->
+  o_cont OP = false -> o_skip OP = false ->
+  check_nodes E docs cwd OP ctx_base rid nodes = true -> check_enodes E docs cwd enodes nodes = true ->
+  check_chains E docs cwd nodes enodes bad0 ranks = true -> check_pis enodes = true ->
+  check_resolvable E docs cwd OP ctx_base rid nodes = true -> check_eresolvable E docs cwd enodes = true ->
+  forall d root_url m s,
+  List.length (refs_of nodes) < d -> forallb (fun kr => Nat.ltb (snd kr) (S d)) ranks = true ->
+  check_root ctx_base nodes enodes bad0 m = true ->
+  Inv2 E docs cwd rid (GN nodes) bad0 s -> Coh cwd (Some root_url) ctx_base ->
+  expand_spec E docs cwd OP ctx_base live d root_url (JObj m) s <> OOF /\
+  expand_spec E docs cwd OP ctx_base live d root_url (JObj m) s <> Unsup.
+Proof.
+  intros E docs cwd OP ctx_base rid nodes enodes bad0 ranks live Hlive Hstrict Hskip Hck Hcke Hckc Hckp Hres Heres d root_url m s Hlen Hranks Hroot Hs Hcoh.
+  destruct (checked_spec_total E docs cwd OP ctx_base rid nodes enodes bad0 ranks live Hlive Hstrict Hskip Hck Hcke Hckc Hckp d root_url m s Hres Heres Hlen Hranks Hroot Hs Hcoh) as [s' [out H]].
+  rewrite H. split; discriminate.
+Qed.
+Print Assumptions C04_expand_spec_returns.
